@@ -278,15 +278,47 @@ def whole_pipeline(ctx):
     return None
 
 
+def reused_options(ctx):
+    """one SolverOptions object used for the same problem in a second unit system (as a script that loops over unit systems
+    does): the physical outputs of the FIRST solution must not move when the options it was solved with are edited"""
+    first = None
+    dev = device_in_units("ring", "um", 5)
+    opts = runs.options(solve_time=0.05, dt_init=5e-3, save_every=5, field_units="mT", current_units="uA")
+    sol = tdgl.solve(dev, opts, applied_vector_potential=0.4)
+    pts = np.array([[0.3, 0.2], [-0.9, 0.4], [0.1, -1.1]])
+
+    def outputs():
+        A = sol.vector_potential_at_position(pts, zs=0.5, units="T * m", with_units=False, return_sum=False)
+        return dict(applied_A=np.asarray(A["applied"] if isinstance(A, dict) else A, dtype=float),
+                    K=np.asarray(sol.current_density.to("A / m").magnitude, dtype=float),
+                    units=(str(sol.field_units), str(sol.current_units)))
+
+    before = outputs()
+    opts.field_units, opts.current_units = "uT", "nA"  # the next run of the script
+    after = outputs()
+    opts.field_units, opts.current_units = "mT", "uA"
+    ctx.case(("reused-options", "mT->uT"), nontrivial=True)
+    ctx.count("solutions_re_read_after_their_options_were_edited")
+    bad = [k for k in ("applied_A", "K") if not np.allclose(before[k], after[k], rtol=1e-12, atol=0)]
+    if before["units"] != after["units"]:
+        bad.append(f"units {before['units']} -> {after['units']}")
+    if bad:
+        rp = dict(changed=[str(b) for b in bad], before=before["applied_A"][0].tolist(), after=after["applied_A"][0].tolist())
+        ctx.fail("outputs-follow-edited-options", f"physical outputs of an existing solution changed when the options object it was solved with was edited for the next run: {bad}", rp)
+        first = dict(key="outputs-follow-edited-options", what=str(bad), **rp)
+    return first
+
+
 def run(ctx):
     scale_factors(ctx)
     flux_per_triangle(ctx)
     paired_runs(ctx)
+    reused_options(ctx)
     whole_pipeline(ctx)
 
 
 def search(ctx):
-    return scale_factors(ctx, with_model=False) or flux_per_triangle(ctx, with_model=False) or paired_runs(ctx, stop_first=True)
+    return scale_factors(ctx, with_model=False) or flux_per_triangle(ctx, with_model=False) or paired_runs(ctx, stop_first=True) or reused_options(ctx)
 
 
 def replay(payload):
